@@ -284,6 +284,21 @@ def constraint_shapes(seed, quick):
         Comp("words", Type("REF", ref="Words", size_c=Constraint([(("union", ("val", 1), ("range", 3, 4)), False, None)])), optional=True),
         Comp("sb", Type("REF", ref="ShortBag"), optional=True),
         Comp("inl", Type("SET OF", elem=Type("IA5String", size_c=Constraint.simple(2, 2)), size_c=Constraint.simple(0, 2)), optional=True)]))
+    # strings with no constraint of their own: the checker is the built-in alphabet test of the type (edges 0x1f/0x20, 0x7e/0x7f)
+    for i, k in enumerate(["VisibleString", "IA5String", "PrintableString", "NumericString"]):
+        m.add("U%d" % i, Type(k))
+    m.add("UH", Type("SEQUENCE", comps=[Comp("u%d" % i, Type(k), optional=(i % 2 == 1))
+                                        for i, k in enumerate(["VisibleString", "IA5String", "PrintableString", "NumericString"])]))
+    # constraints inherited through a reference and refined by a constraint of another kind (or one that does not imply the
+    # parent's): the checker of the refining type must apply both
+    m.add("Base", Type("IA5String", size_c=Constraint.simple(1, 4)))
+    m.add("Derived", Type("REF", ref="Base", alpha_c=Constraint([(R("a", "z"), False, None)])))
+    m.add("SmallI", Type("INTEGER", value_c=Constraint.simple(1, 20)))
+    m.add("Low", Type("REF", ref="SmallI", value_c=Constraint([(R(MIN, 10), False, None)])))
+    m.add("Inh", Type("SEQUENCE", comps=[Comp("d", Type("REF", ref="Derived")),
+                                         Comp("m", Type("REF", ref="Base", alpha_c=Constraint([(R("0", "9"), False, None)]))),
+                                         Comp("l", Type("REF", ref="Low"), optional=True),
+                                         Comp("s", Type("REF", ref="Derived", size_c=Constraint.simple(2, 3)), optional=True)]))
     m.add("W", Type("SEQUENCE", comps=wcomps))
     m.add("Pick", Type("CHOICE", comps=[Comp("pa", Type("REF", ref="I0")), Comp("pb", Type("REF", ref="S0")), Comp("pc", Type("REF", ref="Holder")),
                                         Comp("pd", Type("INTEGER", value_c=Constraint([(U(R(0, 5), R(10, 4294967295)), False, None)])))]))
